@@ -1084,6 +1084,12 @@ static void setup(jv *cfg)
     static int many_fd;   /* descriptors named "m" are all names for ONE open file (dup'ed): hundreds of them, one object */
     if (i == 0) many_fd = -1;
     if (!strcmp(nm, "m") && many_fd >= 0) { sk_dup_to(0, many_fd, fd, (int) ex->a[i]->a[1]->i, 0); continue; }
+    if (!strcmp(nm, "hp")) {   /* the read end of a pipe whose writer (a helper that ended earlier) is gone: open, inheritable, hung up */
+      int po = sk_new_obj(OK_PIPE, 8);
+      objname_cfg[po] = keep(nm);
+      sk_install(0, fd, po, 0, (int) ex->a[i]->a[1]->i, 0);
+      continue;
+    }
     int o = sk_new_obj(OK_TTY, 0);
     objname_cfg[o] = keep(nm);
     sk_install(0, fd, o, 2, (int) ex->a[i]->a[1]->i, 0);
